@@ -73,7 +73,9 @@ def seeded(seed, n):
                 for f in range(nfr):
                     k = 1 if (f % r.choice([7, 15, 40]) == 0 and (f > 0 or r.random() < 0.8)) else 0
                     nn = r.choice([1, 1, 2, 3, 5])
-                    frames.append({"n": nn, "kf": k, "size": r.choice([60, 400, 1500, 4000]), "dim": 1 if (k and r.random() < 0.3) else 0})
+                    # (a change of dimensions only in streams that are otherwise delivered plainly: see DESIGN.md 0.6)
+                    plain = not any(p_odd.values())
+                    frames.append({"n": nn, "kf": k, "size": r.choice([60, 400, 1500, 4000]), "dim": 1 if (plain and k and r.random() < 0.3) else 0})
                 tracks.append({"kind": "video", "codec": "vp8", "seq0": r.choice([0, 7, 65000, 65500]), "ts0": r.choice([0, 90000, 2 ** 32 - 90000 * 3, 2 ** 31 - 45000]), "frames": frames})
             else:
                 frames = [{"n": 1, "kf": 0, "size": r.choice([20, 80, 160])} for f in range(int(nfr * 5 / 3) + 1)]
@@ -202,10 +204,15 @@ def run(tier, replay=None):
             small = {"closed": e.get("closed"), "files": [{"err": f["err"], "tracks": f["tracks"], "nsamples": len(f["samples"])} for f in e.get("files", [])], "what": e.get("what")}
             if clause.startswith("K1_"):
                 if any(k["id"] == "K1" for k in C.known_findings(PID)):
-                    rep.known("K1", "K1 a frame whose first packet arrives after a later packet of the same frame is written truncated to its first packet(s): jech/samplebuilder pop() miscounts a frame that wraps around its ring (dependency)")
+                    rep.known("K1", "K1 a frame that straddles the end of the sample builder's ring (after a late arrival, or once per revolution while the buffer never empties) is written truncated to its first packet(s): jech/samplebuilder pop() counts with cap() instead of len() (dependency)")
                     rep.cov["known_K1_hits"] = rep.cov.get("known_K1_hits", 0) + 1
                 else:
                     rep.violation("K1 signature matched but K1 is not listed in known_findings.json (behaviour '%s')" % (b["name"] if b else "?"), {"behaviours": [b] if b else []})
+            elif clause.startswith("K3_"):
+                if any(k["id"] == "K3" for k in C.known_findings(PID)):
+                    rep.known("K3", "K3 an audio+video recording (sender reports, cache-only packets at the head of the video track) from which the audio track is absent altogether and the tail of the video is missing; history: corpus/C20/known_K3.json")
+                else:
+                    rep.violation("K3 signature matched but K3 is not listed in known_findings.json (behaviour '%s')" % (b["name"] if b else "?"), {"behaviours": [b] if b else []})
             elif clause.startswith("N20_"):
                 rep.cov["keyframe_flag_differs_(not_a_violation)"] = rep.cov.get("keyframe_flag_differs_(not_a_violation)", 0) + 1
             elif clause.startswith("C20_"):
